@@ -827,6 +827,17 @@ func (self *LockManager) PushLockAof(lock *Lock, aofFlag uint16) error {
 	return nil
 }
 
+// PushLockAofWithoutAck logs the hold's record for persistence only. The caller holds no
+// reference for an acknowledgement of this record, so the record must not ask for one even
+// when the hold's command carries the require-ack flag
+func (self *LockManager) PushLockAofWithoutAck(lock *Lock, aofFlag uint16) error {
+	requireAcked := lock.command.TimeoutFlag & protocol.TIMEOUT_FLAG_REQUIRE_ACKED
+	lock.command.TimeoutFlag &^= protocol.TIMEOUT_FLAG_REQUIRE_ACKED
+	err := self.PushLockAof(lock, aofFlag)
+	lock.command.TimeoutFlag |= requireAcked
+	return err
+}
+
 func (self *LockManager) PushUnLockAof(dbId uint8, lock *Lock, lockCommand *protocol.LockCommand, unLockCommand *protocol.LockCommand, isAof bool, aofFlag uint16) error {
 	if self.lockDb.status != STATE_LEADER {
 		return nil
